@@ -643,3 +643,54 @@ func GenClients(r *rand.Rand, nclients, nkeys, nops int, classA bool, withEmpty 
 	}
 	return out
 }
+
+// Exec1 performs one client call and records it.
+func Exec1(s *store.Store, u gen.Universe, client int, o COp) Rec {
+	k := u.Keys[o.K]
+	r := Rec{Client: client, Op: o}
+	key := append([]byte{}, k.Raw...)
+	norm := func(err error) string {
+		c := errClass(err)
+		if c == "other" {
+			c = "other:" + err.Error()
+		}
+		return c
+	}
+	switch o.Kind {
+	case "put":
+		v := val(o)
+		r.Call = hookrt.Tick()
+		err := s.Put(key, append([]byte{}, v...))
+		r.Ret = hookrt.Tick()
+		r.Err = norm(err)
+	case "get":
+		r.Call = hookrt.Tick()
+		v, found, err := s.Get(key)
+		if found {
+			r.Val = string(append([]byte{}, v...))
+			r.ValLen = len(v)
+		}
+		r.Ret = hookrt.Tick()
+		r.Found = found
+		r.Err = norm(err)
+	case "has":
+		r.Call = hookrt.Tick()
+		has, err := s.Has(key)
+		r.Ret = hookrt.Tick()
+		r.Found = has
+		r.Err = norm(err)
+	case "size":
+		r.Call = hookrt.Tick()
+		sz, found, err := s.GetSize(key)
+		r.Ret = hookrt.Tick()
+		r.Found, r.Size = found, int(sz)
+		r.Err = norm(err)
+	case "rm":
+		r.Call = hookrt.Tick()
+		rm, err := s.Remove(key)
+		r.Ret = hookrt.Tick()
+		r.Rm = rm
+		r.Err = norm(err)
+	}
+	return r
+}
